@@ -53,7 +53,7 @@ theorem extend_comm (t : List Nat) (p pred : Nat) : ∀ (f l : Nat), extend t p 
 theorem while1_eq (t : List Nat) (p pred : Nat) (hsz : t.length + t.length < 2 ^ 64) (hp : p ≤ t.length)
     (hpred : pred ≤ t.length) :
     ∀ (f l : Nat), l ≤ t.length → t.length ≤ p + l + f →
-      SrcLcp.lcp_while1 pred t.length p t (f + 1) l = Res.ok (extend t p pred f l) := by
+      SrcLcp.lcp_while1 t t.length p pred (f + 1) l = Res.ok (extend t p pred f l) := by
   intro f
   induction f with
   | zero =>
@@ -132,7 +132,7 @@ theorem toSigned_small {l : Nat} (h : l < 2 ^ 63) : Rs.toSigned 64 l = (l : Int)
 /-- main loop = the model's `kasaiGo` -/
 theorem for2_eq (t sa : List Nat) (hlen : sa.length = t.length) (hsz : t.length + 1 < 2 ^ 63) :
     ∀ (ps : List Nat) (l : Nat) (lcp : List Int), (∀ p ∈ ps, IterOk t sa p) → l ≤ t.length → lcp.length = t.length + 1 →
-      ∃ l', SrcLcp.lcp_for2 sa t.length t (ps.map (fun p => (sa.idxOf p, p))) (l, lcp) =
+      ∃ l', SrcLcp.lcp_for2 t sa t.length (ps.map (fun p => (sa.idxOf p, p))) (l, lcp) =
         Res.ok (l', kasaiGo t sa ps l lcp) := by
   intro ps
   have q := p63
@@ -144,7 +144,7 @@ theorem for2_eq (t sa : List Nat) (hlen : sa.length = t.length) (hsz : t.length 
     have e1 : Rs.sub (sa.idxOf p) 1 = Res.ok (sa.idxOf p - 1) := Rs.sub_ok hr1
     have e2 : Rs.idx sa (sa.idxOf p - 1) = Res.ok (sa.getD (sa.idxOf p - 1) 0) := idx_getD sa _ 0 (by omega)
     have e3 := while1_eq t p (sa.getD (sa.idxOf p - 1) 0) (by omega) (by omega) (by omega) t.length l hl (by omega)
-    -- (the helper's parameters are ordered by first use: `p + l < n && pred + l < n` swaps them)
+    -- (kept although the helper's parameters are now ordered by declaration: the roles of `p` and `pred` are symmetric)
     have e3' := while1_eq t (sa.getD (sa.idxOf p - 1) 0) p (by omega) (by omega) (by omega) t.length l hl (by omega)
     rw [extend_comm] at e3'
     have hle := extend_le t p (sa.getD (sa.idxOf p - 1) 0) t.length l hl
@@ -161,7 +161,7 @@ theorem for2_eq (t sa : List Nat) (hlen : sa.length = t.length) (hsz : t.length 
       simp [-List.getD_eq_getElem?_getD, SrcLcp.lcp_for2, kasaiGo, e1, e2, e3, e3', e4, e5, e6, h0, h0', h0'', h, hE]
     · have h00 : l' = 0 := by omega
       subst h00
-      have h' : SrcLcp.lcp_for2 sa t.length t (ps.map (fun p => (sa.idxOf p, p))) (0, lcp.set (sa.idxOf p) 0) =
+      have h' : SrcLcp.lcp_for2 t sa t.length (ps.map (fun p => (sa.idxOf p, p))) (0, lcp.set (sa.idxOf p) 0) =
           Res.ok (l'', kasaiGo t sa ps 0 (lcp.set (sa.idxOf p) 0)) := by simpa using h
       have e5' : Rs.setIdx lcp (sa.idxOf p) 0 = Res.ok (lcp.set (sa.idxOf p) 0) := by simpa using e5
       simp [-List.getD_eq_getElem?_getD, SrcLcp.lcp_for2, kasaiGo, e1, e2, e3, e3', e4, e5', hE, h']
